@@ -181,8 +181,188 @@ def run(ctx, report):
     from .c03 import string_trip_rule
     string_trip_rule(ctx, R7, X)
 
+    # ---------------------------------------------------------------- D8 operand order
+    R8 = report.rule('C09.D8', 'AT&T syntax reverses the operands, except for the instructions GNU as writes in Intel order (bound, enter); printer and parser agree', floor=40)
+    from ..consteval import Evaluator, NotConst, Obj, Native
+    from ..srcmodel import walk_no_nested
+    from ..shapes import u
+    SAME_ORDER = ('bound', 'enter')           # GNU as (binutils 2.40): `bound %eax,(%ebx)`, `enter $8,$0`
+    strm = arch.method('x86_mn', '__str__')
+    att_if = [n for n in strm.body if isinstance(n, ast.If) and u(n.test).startswith("asm_format.startswith('att_syntax')")
+              and any(isinstance(x, ast.Call) and u(x.func) == 'args.reverse' for x in ast.walk(n))]
+    if len(att_if) != 1:
+        raise AnalysisError('__str__: the AT&T branch that reverses the operands was not found (%d candidates)' % len(att_if))
+    afs = X.afs
+    two_op = sorted(set(i_.name for i_ in L.instances if len(i_.operands) == 2 and not i_.modifs.get(E['mmx']) and i_.name not in ('call', 'jmpf', 'callf')
+                        and not i_.name.startswith('j')))
+    if len(two_op) < 40 or not all(n_ in two_op for n_ in SAME_ORDER):
+        raise AnalysisError('two-operand mnemonics of the decoder: %d found, %s expected among them' % (len(two_op), SAME_ORDER))
+    for name in two_op:
+        me, m_ = Obj('self'), Obj('m')
+        m_.name = name
+        me.m = m_
+        me.arg = [{afs.ad: False, afs.size: afs.u32, 1: 1}, {afs.ad: False, afs.size: afs.u32, 2: 1}]
+        scope = dict((k, v) for k, v in E.items() if isinstance(v, (str, int, bool, list, tuple, dict)) or v is None)
+        scope.update({'self': me, 'args': ['A', 'B'], 'mnemo': [name], 'asm_format': 'att_syntax', 'x86_afs': afs,
+                      'mnemo_to_att': Native(lambda n_, a_, f_: n_)})
+        ev = Evaluator({})
+        ev.env = scope
+        try:
+            ev.exec_stmts(att_if[0].body, scope)
+        except NotConst as e:
+            raise AnalysisError('__str__: the AT&T branch is outside the evaluable subset for %s: %s' % (name, e))
+        got = [a_.lstrip('*') for a_ in scope['args']]
+        want = ['A', 'B'] if name in SAME_ORDER else ['B', 'A']
+        inst = 'print-order:%s' % name
+        if got == want:
+            R8.ok(inst, sample='%s a, b is printed %s %s' % (name, name, ', '.join(got).lower()), nontrivial=(name in SAME_ORDER or len(R8.nontrivial) < 60))
+        else:
+            R8.violation(inst, 'att-order:print:%s' % name, 'the AT&T rendering of `%s a, b` writes the operands in the order %s; GNU as reads %s %s'
+                         % (name, ', '.join(got).lower(), name, ', '.join(want).lower()), where(arch, att_if[0]),
+                         witness="dis(62 03) in AT&T syntax printed 'bound (%ebx), %eax'; GNU as: bound %eax,(%ebx)" if name == 'bound' else None)
+        # parser side: parse_args hands the operands over reversed (Intel order); mnemo_from_att must undo that for the same instructions only
+        a1, a2 = {afs.ad: False, afs.size: afs.u32, 1: 1}, {afs.ad: False, afs.size: afs.u32, 2: 1}
+        lst = [a1, a2]
+        try:
+            r_ = I.run(from_att, [[], name, lst, 'att_syntax'])
+        except LiftUnknown as e:
+            raise AnalysisError('mnemo_from_att outside the modelled subset on %s: %s' % (name, e))
+        if any(isinstance(res_, LiftError) for _, res_ in r_):
+            continue                # no AT&T spelling under the bare Intel name (suffix needed): D1/D2 judge it
+        swapped = (1 in lst[0]) is False
+        inst = 'parse-order:%s' % name
+        if name in ('test', 'xchg'):
+            continue                # symmetric instructions: the parser may exchange the operands
+        if swapped == (name in SAME_ORDER):
+            R8.ok(inst, sample='%s: the parser %s the operand list' % (name, 'reverses' if swapped else 'keeps'), nontrivial=(name in SAME_ORDER or len(R8.nontrivial) < 60))
+        else:
+            R8.violation(inst, 'att-order:parse:%s' % name, 'mnemo_from_att %s the operands of %s, which GNU as writes in %s order'
+                         % ('reverses' if swapped else 'does not reverse', name, 'Intel' if name in SAME_ORDER else 'reversed'), where(arch, from_att.node))
+
+
+    # ---------------------------------------------------------------- D9 a memory operand rendered under a suffix-less AT&T mnemonic assembles back
+    R9 = report.rule('C09.D9', 'memory forms whose AT&T mnemonic carries no size suffix: the size mnemo_from_att leaves on the operand passes the size check of the /digit row', floor=30)
+    ac = arch.method('x86_mn', 'asm_candidates')
+    d_asm = None
+    for n in walk_no_nested(ac):
+        if isinstance(n, ast.If) and u(n.test).replace(' ', '') == 'afsin[d0,d1,d2,d3,d4,d5,d6,d7]':
+            d_asm = n
+    if d_asm is None:
+        raise AnalysisError('asm_candidates: the /digit branch was not found')
+    # statements of the /digit branch that compute `size` from the operand `a`, up to the check_size_modif test
+    size_stmts, chk = [], None
+    for st in d_asm.body:
+        if isinstance(st, ast.If) and 'check_size_modif' in u(st.test):
+            chk = st
+            break
+        if isinstance(st, ast.If) and u(st.test) in ('a[x86_afs.ad]',):
+            size_stmts.append(st)
+    if chk is None or not size_stmts:
+        raise AnalysisError('asm_candidates: size computation of the /digit branch was not found')
+    csm = arch.method('x86allmncs', 'check_size_modif')
+    mem16 = set(E.get('mnemo_mem16', ()))
+    pre9 = []
+    for st in ac.body:
+        if isinstance(st, ast.Assign) and u(st.targets[0]) == 'can_be_16_32':
+            break
+        if isinstance(st, ast.If) and 'args_eval' in u(st.test) and 'candidate' in u(st) and any(isinstance(x, ast.Assign) and u(x.targets[0]).startswith('args_eval[') for x in ast.walk(st)):
+            pre9.append(st)
+    rows_by_name = {}
+    seen_rv = set()
+    for path_, c_ in sorted(X.cells.items()):
+        kk_ = (c_.row.idx, tuple(sorted((str(a_), str(b_)) for a_, b_ in c_.modifs.items() if b_ is not None)))
+        if kk_ in seen_rv:
+            continue
+        seen_rv.add(kk_)
+        rows_by_name.setdefault(c_.row.name, []).append(c_)
+    lg9 = Obj('log')
+    lg9.debug = Native(lambda *a: None)
+    lg9.info = Native(lambda *a: None)
+    done9 = set()
+    for inst in L.instances:
+        if not isinstance(inst.row.afs, int) or inst.modifs.get(E['mmx']) or len(inst.operands) != 1 or not inst.operands[0].get(afs.ad) or inst.opmode != 'u32':
+            continue
+        name = printed_name(X, inst)
+        if name in ('call', 'callf', 'jmp', 'jmpf'):
+            continue            # rendered with a star: `*(%eax)` is parsed with the operand size
+        k9 = (name, inst.row.idx, inst.opmode)
+        if k9 in done9:
+            continue
+        done9.add(k9)
+        args = [dict(a) for a in inst.operands]
+        try:
+            r = I.run(to_att, [name, args, 'att_syntax'])
+        except LiftUnknown as e:
+            raise AnalysisError('mnemo_to_att outside the modelled subset on %s: %s' % (name, e))
+        res = r[0][1]
+        if not isinstance(res, str):
+            continue            # D1 reports it
+        # what the AT&T operand parser hands over for `(%eax)`: an address without size
+        op = {afs.ad: True, afs.size: True, 0: 1}
+        lst = [op]
+        try:
+            r2 = I.run(from_att, [[], res, lst, 'att_syntax'])
+        except LiftUnknown as e:
+            raise AnalysisError('mnemo_from_att outside the modelled subset on %s: %s' % (res, e))
+        if isinstance(r2[0][1], LiftError):
+            continue            # D2 reports it
+        back = r2[0][1]
+        n2 = back[1] if isinstance(back, tuple) and len(back) == 2 else back
+        # normalize_args (evaluated) may give the operand a size (lea, prefetch, cmpxchg8b)
+        from .. import stringops as SO9
+        lst2, _ = SO9.normalized(X, n2, lst)
+        if len(lst2) != 1:
+            continue
+        a9 = dict(lst2[0])
+        # statements of asm_candidates that complete an operand before the operand-size detection (e.g. an unsized memory operand takes the
+        # size of the rows when they agree): evaluated with the rows of the mnemonic as candidates
+        if pre9:
+            cands = []
+            for c_ in rows_by_name.get(n2, []):
+                co = Obj('c')
+                mdc = dict((E[k_], None) for k_ in ('w8', 'se', 'sw', 'ww', 'sg', 'dr', 'cr', 'ft', 'w64', 'sd', 'wd', 'bkf', 'spf', 'dtf', 'mmx') if k_ in E)
+                mdc.update(c_.modifs)
+                co.name, co.modifs, co.afs, co.rm, co.opc = c_.row.name, mdc, c_.row.afs, list(c_.row.rm), list(c_.opc)
+                cands.append(co)
+            xdb = Obj('x86mndb')
+            xdb.__dict__['_methods'] = dict((m_.name, m_) for m_ in arch.classes['x86allmncs'].body if isinstance(m_, ast.FunctionDef))
+            scope0 = dict((k_, v_) for k_, v_ in E.items() if isinstance(v_, (str, int, bool, list, tuple, dict)) or v_ is None)
+            scope0.update({'args_eval': [a9], 'candidate': cands, 'x86mndb': xdb, 'x86_afs': afs, 'name': n2, 'log': lg9, 'prefix': []})
+            ev0 = Evaluator({})
+            ev0.env = scope0
+            try:
+                ev0.exec_stmts(pre9, scope0)
+            except NotConst as e:
+                raise AnalysisError('asm_candidates: operand completion before the size detection is not evaluable for %s: %s' % (n2, e))
+        # asm_candidates normalises the 16-bit memory operand of the mnemo_mem16 instructions to u32
+        if a9.get(afs.ad) == afs.u16 and n2 in mem16:
+            a9[afs.ad] = a9[afs.size] = afs.u32
+        cobj = Obj('c')
+        md9 = dict((E[k_], None) for k_ in ('w8', 'se', 'sw', 'ww', 'sg', 'dr', 'cr', 'ft', 'w64', 'sd', 'wd', 'bkf', 'spf', 'dtf', 'mmx') if k_ in E)
+        md9.update(inst.modifs)
+        cobj.name, cobj.modifs = inst.row.name, md9
+        scope = dict((k_, v_) for k_, v_ in E.items() if isinstance(v_, (str, int, bool, list, tuple, dict)) or v_ is None)
+        scope.update({'a': a9, 'c': cobj, 'x86_afs': afs, 'log': lg9})
+        ev9 = Evaluator({})
+        ev9.env = scope
+        try:
+            ev9.exec_stmts(size_stmts, scope)
+            ok9 = ev9.call_user(csm, [Obj('x86mndb'), scope.get('size'), md9])
+        except NotConst as e:
+            raise AnalysisError('asm_candidates /digit size computation not evaluable for %s: %s' % (name, e))
+        iid = 'att-unsized:%s:%s:%s' % (name, inst.row.key(), inst.opmode)
+        if ok9:
+            R9.ok(iid, sample='%s (%%eax) -> %s with operand size %s: accepted by %s' % (res, n2, scope.get('size'), inst.row.key()), nontrivial=(len(R9.nontrivial) < 80))
+        else:
+            R9.violation(iid, 'att-unsized:%s' % name, 'the memory form of %s is rendered `%s (%%eax)` in AT&T syntax; read back, the operand has size %r, which the size check of row %s refuses: '
+                         'the rendering has no candidate' % (name, res, scope.get('size'), inst.row.key()), where(arch, from_att.node), witness="asm_att('sgdt (%eax)') == []")
+
+
 
 MUTANTS = [
+    ('unsized-mem-no-default', 'miasmx/arch/ia32_arch.py', "            if len(sizes) == 1 and not None in sizes:", "            if False:", 'C09.D9'),
+    ('bound-reversed', 'miasmx/arch/ia32_arch.py', "att_same_order = ['bound', 'enter']", "att_same_order = ['enter']", 'C09.D8'),
+    ('att-parse-order', 'miasmx/arch/ia32_arch.py', "    if name in att_same_order and len(args) == 2:\n        args.reverse()\n", "", 'C09.D8'),
     ('cmpsd-att-homonym', 'miasmx/arch/ia32_arch.py', "    if name in ['movsd', 'cmpsd'] and args[0][x86_afs.size] != 'xmm' \\", "    if name in ['movsd'] and args[0][x86_afs.size] != 'xmm' \\", 'C09.D6'),
     ('movsd-mem-movsl', 'miasmx/arch/ia32_arch.py', "    if name in ['movsd', 'cmpsd'] and args[0][x86_afs.size] != 'xmm' \\\n                                  and args[1][x86_afs.size] != 'xmm':", "    if name in ['movsd', 'cmpsd'] and not (args[0][x86_afs.size] == 'xmm'\n                            and args[1][x86_afs.size] == 'xmm'):", 'C09.D6'),
     ('deref3-overwrite', 'miasmx/arch/ia32_att.py', "    t[0][reg] = t[6] + t[0].get(reg, 0)", "    t[0][reg] = t[6]", 'C09.D5'),
